@@ -295,7 +295,9 @@ impl IRBuilder {
             .map(|(i, term)| match term {
                 Term::Variable(v) => v.clone(),
                 Term::Constant(_) => format!("_const_a{atom_idx}_c{i}"),
-                Term::Placeholder => format!("_ph_{}_{}", atom.relation, i),
+                // Every placeholder is a fresh anonymous variable: include the atom
+                // index so that `r(_, 3), r(_, Z)` does not join the two atoms on `_`.
+                Term::Placeholder => format!("_ph_a{atom_idx}_{}_{}", atom.relation, i),
                 // Aggregates in body atoms refer to the variable they aggregate
                 Term::Aggregate(_, v) => v.clone(),
                 // Arithmetic expressions - use the variables they reference
